@@ -299,6 +299,15 @@ def run_exe(exe, args=(), stdin=None, timeout=60, env=None, cwd=None, merge=Fals
     return st, r.stdout.decode("utf-8", "replace"), r.stderr.decode("utf-8", "replace")
 
 
+GO126 = "/opt/veriftools/go1.26.8/bin/go"
+
+
+def ref_go():
+    """reference toolchain for generated programs: the newest Go installed (1.24.0 mishandles a panic recovered by a call
+    deferred from a range-over-func body); llgo itself is always built with 1.24.0"""
+    return GO126 if os.path.exists(GO126) else GO124
+
+
 def go_build(moddir, out, timeout=600, pkg=".", tags="", go=GO124, env=None):
     cmd = [go, "build", "-o", out]
     if tags:
